@@ -88,7 +88,8 @@ def menus():
         ("k1", ["secp256k1", "secp256r1"], IN),
         ("unknown", ["secp256r1", "secp160r1"], OUT),
         ("case", ["X25519"], OUT))
-    dim("dhGroups", ("2048", ["ffdhe2048"], IN), ("empty", [], IN),
+    dim("dhGroups", ("2048", ["ffdhe2048"], IN), ("3072", ["ffdhe3072"], IN),
+        ("empty", [], IN),
         ("unknown", ["ffdhe1024"], OUT))
     dim("defaultCurve", ("p384", "secp384r1", IN),
         ("unknown", "secp160r1", OUT))
